@@ -1549,7 +1549,7 @@ PROPS['C19'] = dict(
           'zero_partition_is_constant, regenerated from Partition::new; at most encMaxPartitions of them) costs at most 8 + wasted + 4 warm-up samples + 646 bits, so the subframe written for a '
           'constant channel is bounded independently of the block length n, for every LPC candidate and depth; header_bits_le: a frame header is at most 15 bytes + CRC-8; frame_bytes_bound composes them.',
     note='constant_block_fixed_zero (Props/C19b.lean, over Model/FixedPick.lean = the accumulation loop and min_by_key of encode_fixed_subframe): a block of n >= 2 equal non-zero samples is written by '
-         'encode_fixed_subframe as FIXED order 1 with all-zero residuals; the driver compares order and residuals of every mono FIXED subframe the encoder writes with fixedPick. Which partition order '
+         'encode_fixed_subframe as FIXED order 1 with all-zero residuals; the driver compares order and residuals of the FIXED subframe the encoder writes for every mono block of equal non-zero samples with fixedPick (model-vs-code correspondence; elsewhere the choice among the FIXED orders is a heuristic no property constrains). Which partition order '
          'min_by_key keeps in write_residuals is not modelled: the driver checks on every generated constant block that each written subframe is CONSTANT or FIXED/LPC over zero-width partitions only, '
          'and the oracle measures the tighter 12 bytes per channel.',
     trusted_base=COMMON_TRUST,
